@@ -119,6 +119,16 @@ impl<'a> Dispatcher<'a, '_> {
     }
 }
 
+#[cfg(feature = "verif-hooks")]
+#[allow(missing_docs)]
+impl Dispatcher<'_, '_> {
+    /// Executed layout (systems per group per stage) and number of
+    /// thread-local systems.
+    pub fn verif_layout(&self) -> (Vec<Vec<usize>>, usize) {
+        (self.inner.verif_layout(), self.thread_local.len())
+    }
+}
+
 impl RunNow<'_> for Dispatcher<'_, '_> {
     fn run_now(&mut self, world: &World) {
         self.dispatch(world);
